@@ -562,6 +562,12 @@ class SArr(np.ndarray):
     def detach(self):
         return self
 
+    def cpu(self):
+        return self
+
+    def clone(self):
+        return SArr(np.array(self, dtype=object, copy=True))
+
 
 def sarr(data):
     return SArr(data)
